@@ -1,6 +1,11 @@
 package checks
 
 import (
+	"context"
+	"github.com/sdcio/data-server/pkg/config"
+	"github.com/sdcio/data-server/pkg/datastore/target"
+	"testing/synctest"
+
 	"fmt"
 	"sort"
 	"strings"
@@ -70,12 +75,26 @@ func resubmitTx(h *Hist, id string) *TxSpec {
 func runC09(rc *sim.RunCtx) {
 	h, err := NewHist(rc, HistOpts{Profiles: []string{"core", "core", "presence"}, MinTx: 2, MaxTx: 8, Capture: true,
 		DevKinds: []string{"direct", "direct", "direct", "gnmi-proto", "gnmi-json", "gnmi-json_ietf"},
+		Sync:     &config.Sync{Validate: true, Buffer: 64, WriteWorkers: 1, Config: []*config.SyncProtocol{{Name: "cfg", Protocol: "gnmi", Mode: "on-change"}}},
 		Oracles:  map[string]bool{"C01": true, "C02": true}})
 	if err != nil {
 		rc.HarnessErr("world: %v", err)
 		return
 	}
 	defer h.W.Close()
+	// the real Datastore.Sync: now and then the device reports its whole configuration back in a native format; re-applying an
+	// unchanged intent must be a no-op after that as well
+	var syncCh chan *target.SyncUpdate
+	ready := make(chan struct{})
+	h.W.Dev.SyncFn = func(ctx context.Context, cfg *config.Sync, c chan *target.SyncUpdate) {
+		syncCh = c
+		close(ready)
+		<-ctx.Done()
+	}
+	sctx, scancel := context.WithCancel(h.W.Ctx)
+	defer scancel()
+	go h.W.DS.Sync(sctx)
+	<-ready
 	n := tierLen(rc, h.Ops)
 	step := 0
 	for s := 0; s < n; s++ {
@@ -84,6 +103,41 @@ func runC09(rc *sim.RunCtx) {
 		step++
 		if len(h.M.Live) == 0 || !rc.T.Bool(2, 3) {
 			continue
+		}
+		if rc.T.Bool(1, 3) {
+			style := deviceEchoStyles[rc.T.Choose(len(deviceEchoStyles))]
+			ns, err := deviceEcho(rc.T, h.W, h.W.Dev.State, style)
+			if err != nil {
+				rc.Scenario("   device echo (%s) not possible: %v", style, err)
+			} else {
+				for _, nf := range ns {
+					syncCh <- &target.SyncUpdate{Update: nf}
+				}
+				synctest.Wait()
+				// diagnostic: how far is the running store from the device now
+				ndiff := -1
+				if dump, derr := h.W.DumpConfig(); derr == nil {
+					run := map[string]string{}
+					for _, e := range dump {
+						run[e.Path.String()] = world.NormAbs(e.Abs)
+					}
+					ndiff = 0
+					for k, l := range h.W.Dev.State {
+						if n := h.W.SI.Node(l.Path); n != nil && n.Kind == world.KContainer {
+							continue
+						}
+						if run[k] != world.NormAbs(l.Abs) {
+							ndiff++
+						}
+					}
+				}
+				rc.Scenario("   device reports its configuration (%d leaves) as %s, %d notifications; running store differs from the device in %d leaves", len(h.W.Dev.State), style, len(ns), ndiff)
+				if ndiff > 0 {
+					rc.Probe("device-echo-running-differs")
+				}
+				rc.Probe("device-echo")
+				rc.Probe("device-echo-" + style)
+			}
 		}
 		h.AdvanceClock()
 		tx := resubmitTx(h, fmt.Sprintf("r%d", s))
